@@ -233,6 +233,31 @@ func (m *urlModule) fixURL(u *url.URL) {
 	fixRawQuery(u)
 }
 
+// validHost reports whether host (a hostname with an optional port) can be the authority of a URL with the given
+// scheme: it must parse as exactly that host and nothing else, and its port must be in range.
+func validHost(scheme, host string) bool {
+	p, err := url.ParseRequestURI(scheme + "://" + host)
+	if err != nil || p.Host != host || p.User != nil || p.Path != "" || p.RawQuery != "" || p.Fragment != "" {
+		return false
+	}
+	if p.Hostname() == "" && isSpecialNetProtocol(scheme) {
+		return false
+	}
+	if port := p.Port(); port != "" {
+		if n, err := strconv.Atoi(port); err != nil || n > math.MaxUint16 {
+			return false
+		}
+	}
+	return true
+}
+
+// dropDefaultPort removes the port from the host if it is the default port of the current scheme.
+func dropDefaultPort(u *url.URL) {
+	if port, err := strconv.Atoi(u.Port()); err == nil && isDefaultURLPort(u.Scheme, port) {
+		clearURLPort(u)
+	}
+}
+
 func (m *urlModule) createURLPrototype() *goja.Object {
 	p := m.r.NewObject()
 
@@ -241,9 +266,10 @@ func (m *urlModule) createURLPrototype() *goja.Object {
 		return u.url.Host
 	}, func(u *nodeURL, arg goja.Value) {
 		host := arg.String()
-		if _, err := url.ParseRequestURI(u.url.Scheme + "://" + host); err == nil {
+		if validHost(u.url.Scheme, host) {
 			u.url.Host = host
 			m.fixURL(u.url)
+			dropDefaultPort(u.url)
 		}
 	})
 
@@ -269,7 +295,7 @@ func (m *urlModule) createURLPrototype() *goja.Object {
 		if strings.IndexByte(h, ':') >= 0 {
 			return
 		}
-		if _, err := url.ParseRequestURI(u.url.Scheme + "://" + h); err == nil {
+		if validHost(u.url.Scheme, h) {
 			if port := u.url.Port(); port != "" {
 				u.url.Host = h + ":" + port
 			} else {
@@ -347,6 +373,7 @@ func (m *urlModule) createURLPrototype() *goja.Object {
 		if isSpecialProtocol(u.url.Scheme) == isSpecialProtocol(s) {
 			if _, err := url.ParseRequestURI(s + "://" + u.url.Host); err == nil {
 				u.url.Scheme = s
+				dropDefaultPort(u.url)
 			}
 		}
 	})
